@@ -1442,7 +1442,7 @@ pub fn property() -> Property {
         real: &["bio::io::fasta::{Reader, Records, Writer, Record (incl. Display)}", "bio::io::fastq::{Reader, Records, Writer, Record (incl. check, Display)}", "bio::io::fastx::{EitherRecords, get_kind, get_kind_seek}", "std::io::{BufReader, BufWriter, Chain, Cursor, read_line, read_exact, write_all}"],
         stubs: &["the OS file/pipe under the writer (SimWrite: short writes, EINTR)", "the OS file/pipe under the reader (SimRead/SimBufRead/SimSeekRead: short reads, EINTR)", "the foreign tool that re-wraps a file or converts it to CRLF (harness serialiser)", "producer crash / media fault (cut, byte corruption applied to the stored image)"],
         assumptions: &[
-            "domain of 'valid record': id without Unicode white space; description absent or non-empty, without line breaks, not ending in white space; sequence 1..=40 (1 run in 50: up to 20000) ASCII residues without white space, '>' or '+'; qualities bytes 33..=126",
+            "domain of 'valid record': id without Unicode white space; description absent or without line breaks (empty descriptions and descriptions ending in white space are generated only for known finding K1: 1 description in 25 in the plain round-trip scenarios, own clause); sequence 1..=40 (1 run in 50: up to 20000) ASCII residues without white space, '>' or '+'; qualities bytes 33..=126",
             "hard read/write errors and full disks are not injected: the property does not constrain the outcome",
             "an Err(kind=Interrupted) is accepted only in runs where EINTR was injected and fired, and then everything read before it must be a correct prefix",
             "sampling, not proof: coverage is what the counters in this file say",
